@@ -33,6 +33,9 @@ def run(ctx):
     ctx.need_module(M)
     d1(ctx)
     d2(ctx)
+    from .common import hook_agreement, mode_dispatch
+    hook_agreement(ctx, "D2/T6-one-gradient-transformation", f"{M}:create_dynamics_functions", min_sites=3)
+    mode_dispatch(ctx, "D2/T14-mode-dispatch", [f"{M}:parse_2D_to_3D_gradient_transformation", f"{M}:create_mechanics_functions"])
     ctx.trust("exact rational arithmetic; normal forms of multivariate rational functions")
     ctx.assume("dt > 0, beta > 0")
 
@@ -260,6 +263,11 @@ def variants(repo):
     from optilint.selftest import Variant, sub, sub_in_func, alpha_rename, reformat
     P = "optimism/Mechanics.py"
     return [
+        Variant("algorithmic energy with the unprojected transformation", "optimism/Mechanics.py",
+                sub_in_func("create_dynamics_functions", "    modify_element_gradient = define_pressure_projection_gradient_tranformation(functionSpace, pressureProjectionDegree, modify_element_gradient)",
+                            "    grad_2D_to_3D = modify_element_gradient\n    modify_element_gradient = define_pressure_projection_gradient_tranformation(functionSpace, pressureProjectionDegree, modify_element_gradient)\n    _unused = grad_2D_to_3D"), None),
+        Variant("dynamics: axisymmetric mode selects the plane-strain transformation", "optimism/Mechanics.py",
+                sub("        grad_2D_to_3D = axisymmetric_element_gradient_transformation\n    else:\n        raise ValueError", "        grad_2D_to_3D = plane_strain_gradient_transformation\n    else:\n        raise ValueError"), "D2/T14-mode-dispatch"),
         Variant("(1-2beta) -> (1-beta)", P, sub("0.5*dt*dt*(1.0 - 2.0*newmarkParameters.beta)*A", "0.5*dt*dt*(1.0 - newmarkParameters.beta)*A"), "D1/T7-newmark-formulas"),
         Variant("gamma <-> beta in correct", P, sub("        V += dt*newmarkParameters.gamma*A", "        V += dt*newmarkParameters.beta*A"), "D1/T7-newmark-formulas"),
         Variant("predictor velocity with gamma", P, sub("        V += dt*(1.0 - newmarkParameters.gamma)*A", "        V += dt*newmarkParameters.gamma*A"), "D1/T7-newmark-formulas"),
